@@ -2,7 +2,7 @@
    Only theorem statements; every proof is `exact <lemma>`.  py_* are regenerated from /repo on every
    run (Gen/), rs_* are the hand model of rust/src/helpers.rs (tied by correspondence). Spec = Spec/Cal.v. *)
 From Coq Require Import ZArith Bool.
-From PV Require Import Lib.PyBase Spec.Cal Proofs.CalFacts Proofs.C15Facts.
+From PV Require Import Lib.PyBase Spec.Cal Proofs.CalFacts Proofs.C15Facts Proofs.LocalTime.
 From PV Require Import Gen.Constants Gen.Helpers Gen.DateGetters Gen.RustConstants Model.RustHelpers.
 Open Scope Z_scope.
 
@@ -69,3 +69,17 @@ Theorem week_of_month_spec : forall y m d,
   py_Date_week_of_month (mkdate y m d) = (d + weekday0 (ymd2ord y m 1) - 1) / 7 + 1.
 Proof. exact py_week_of_month_spec. Qed.
 Print Assumptions week_of_month_spec.
+
+(* broken-down time of a Unix timestamp at an offset: EVERY integer timestamp and offset (no range), both backends.
+   local_time_spec S us = (fields of ord2ymd (S div 86400 + 719163), hour/minute/second of S mod 86400, us). *)
+Theorem local_time_py_spec : forall t off us, py_local_time t off us = Some (local_time_spec (t + off) us).
+Proof. exact py_local_time_spec. Qed.
+Print Assumptions local_time_py_spec.
+
+Theorem local_time_rs_eq_py : forall t off us, rs_local_time t off us = py_local_time t off us.
+Proof. exact rs_local_time_eq_py. Qed.
+Print Assumptions local_time_rs_eq_py.
+
+Theorem local_time_rs_spec : forall t off us, rs_local_time t off us = Some (local_time_spec (t + off) us).
+Proof. exact rs_local_time_spec. Qed.
+Print Assumptions local_time_rs_spec.
